@@ -34,7 +34,13 @@ type vrScenario struct {
 	replace    bool
 	sbiFails   bool
 	modifyFail string // "", intended, config
+	// extended scenarios
+	timeout      time.Duration // rollback timeout of the transaction (default one hour)
+	existingPrio int32         // != 0: the intent already exists in the intended store with this priority
+	newPrio      int32         // priority of the intent in the transaction (default 10)
 }
+
+var vrTraceMu sync.Mutex
 
 func (s vrScenario) String() string {
 	return fmt.Sprintf("content=%s,dryRun=%v,replaceIntent=%v,targetSetFails=%v,cacheModifyFails=%q", s.content, s.dryRun, s.replace, s.sbiFails, s.modifyFail)
@@ -59,6 +65,16 @@ func vrIntentJSON(t *testing.T, content string) string {
 }
 
 func vrRun(t *testing.T, sc vrScenario) (trace []string, rsp *sdcpb.TransactionSetResponse, err error, d *Datastore) {
+	tr, rsp, err, d := vrRunLive(t, sc)
+	vrTraceMu.Lock()
+	defer vrTraceMu.Unlock()
+	return append([]string{}, (*tr)...), rsp, err, d
+}
+
+// vrRunLive returns the live effect trace: effects of timers firing later are appended to it (read under vrTraceMu)
+func vrRunLive(t *testing.T, sc vrScenario) (tracep *[]string, rsp *sdcpb.TransactionSetResponse, err error, d *Datastore) {
+	var trace []string
+	tracep = &trace
 	ctx, cancel := context.WithTimeout(context.Background(), 2*time.Second)
 	defer cancel()
 	controller := gomock.NewController(t)
@@ -67,6 +83,8 @@ func vrRun(t *testing.T, sc vrScenario) (trace []string, rsp *sdcpb.TransactionS
 		func(_ context.Context, _ string, opts *cache.Opts, dels [][]string, upds []*cache.Update) error {
 			store := strings.ToLower(opts.Store.String())
 			fails := sc.modifyFail == store
+			vrTraceMu.Lock()
+			defer vrTraceMu.Unlock()
 			trace = append(trace, fmt.Sprintf("Modify(%s,%s,%d,ok=%v)", store, opts.Owner, opts.Priority, !fails))
 			if fails {
 				return errors.New("cache modify failed")
@@ -74,10 +92,11 @@ func vrRun(t *testing.T, sc vrScenario) (trace []string, rsp *sdcpb.TransactionS
 			return nil
 		},
 	)
-	testhelper.ConfigureCacheClientMock(t, cacheClient, nil, nil, nil, nil)
 	sbi := mocktarget.NewMockTarget(controller)
 	sbi.EXPECT().Set(gomock.Any(), gomock.Any()).AnyTimes().DoAndReturn(
 		func(_ context.Context, _ target.TargetSource) (*sdcpb.SetDataResponse, error) {
+			vrTraceMu.Lock()
+			defer vrTraceMu.Unlock()
 			trace = append(trace, fmt.Sprintf("Set(ok=%v)", !sc.sbiFails))
 			if sc.sbiFails {
 				return nil, errors.New("device rejected the change")
@@ -105,11 +124,25 @@ func vrRun(t *testing.T, sc vrScenario) (trace []string, rsp *sdcpb.TransactionS
 		}
 		return ti
 	}
+	var existing []*cache.Update
+	if sc.existingPrio != 0 {
+		for _, u := range mk("owner1", sc.existingPrio, "valid").GetUpdates() {
+			existing = append(existing, u)
+		}
+	}
+	testhelper.ConfigureCacheClientMock(t, cacheClient, existing, existing, nil, nil)
+	timeout, prio := time.Hour, int32(10)
+	if sc.timeout != 0 {
+		timeout = sc.timeout
+	}
+	if sc.newPrio != 0 {
+		prio = sc.newPrio
+	}
 	var replace *types.TransactionIntent
 	if sc.replace {
 		replace = mk("replace", 10, "valid")
 	}
-	rsp, err = d.TransactionSet(ctx, "trans1", []*types.TransactionIntent{mk("owner1", 10, sc.content)}, replace, time.Hour, sc.dryRun)
+	rsp, err = d.TransactionSet(ctx, "trans1", []*types.TransactionIntent{mk("owner1", prio, sc.content)}, replace, timeout, sc.dryRun)
 	return
 }
 
@@ -121,7 +154,7 @@ func TestVerifReplayTransactionSet(t *testing.T) {
 			for _, repl := range []bool{false, true} {
 				for _, sbiF := range []bool{false, true} {
 					for _, mf := range []string{"", "intended", "config"} {
-						sc := vrScenario{content, dry, repl, sbiF, mf}
+						sc := vrScenario{content: content, dryRun: dry, replace: repl, sbiFails: sbiF, modifyFail: mf}
 						n++
 						var trace []string
 						var rsp *sdcpb.TransactionSetResponse
@@ -211,6 +244,54 @@ func TestVerifReplayTransactionSet(t *testing.T) {
 						}
 					}
 				}
+			}
+		}
+	}
+	// C07: a transaction that failed leaves no armed rollback timer behind. The failing run uses a 40 ms rollback timeout;
+	// an orphaned timer shows as further effects after the error was returned.
+	for _, mf := range []string{"intended", "config"} {
+		n++
+		sc := vrScenario{content: "valid", modifyFail: mf, timeout: 40 * time.Millisecond}
+		tr, _, err, _ := vrRunLive(t, sc)
+		vrTraceMu.Lock()
+		before := append([]string{}, (*tr)...)
+		vrTraceMu.Unlock()
+		time.Sleep(150 * time.Millisecond)
+		vrTraceMu.Lock()
+		after := append([]string{}, (*tr)...)
+		vrTraceMu.Unlock()
+		if err != nil && len(after) != len(before) {
+			for _, fn := range []string{fnTS, fnLL} {
+				fmt.Printf("REPLAY-FAIL fn=%s clause=failed_run_leaves_no_timer input=%s,rollbackTimeout=40ms err=%v effects=%v why=the transaction failed, yet its rollback timer fired afterwards: later effects %v\n", fn, sc, err, before, after[len(before):])
+			}
+		}
+	}
+	// C05: the rollback of a re-prioritised intent writes the old content back under the old priority
+	for _, pr := range [][2]int32{{10, 5}, {5, 10}, {10, 10}} {
+		n++
+		sc := vrScenario{content: "valid", existingPrio: pr[0], newPrio: pr[1]}
+		tr, _, err, d := vrRunLive(t, sc)
+		if err != nil {
+			fmt.Printf("REPLAY-FAIL fn=%s clause=panic input=%s,existingPriority=%d,newPriority=%d why=unexpected error %v\n", fnLL, sc, pr[0], pr[1], err)
+			continue
+		}
+		vrTraceMu.Lock()
+		before := len(*tr)
+		vrTraceMu.Unlock()
+		cerr := d.transactionManager.Cancel(context.Background(), "trans1")
+		vrTraceMu.Lock()
+		rb := append([]string{}, (*tr)[before:]...)
+		vrTraceMu.Unlock()
+		want := fmt.Sprintf("Modify(intended,owner1,%d,", pr[0])
+		found := false
+		for _, e := range rb {
+			if strings.HasPrefix(e, want) {
+				found = true
+			}
+		}
+		if !found {
+			for _, fn := range []string{fnTS, fnLL} {
+				fmt.Printf("REPLAY-FAIL fn=%s clause=snapshot_priority_is_content_priority input=%s,existingPriority=%d,newPriority=%d why=cancel (err %v) restores the intent with %v, expected a write under its old priority %d\n", fn, sc, pr[0], pr[1], cerr, rb, pr[0])
 			}
 		}
 	}
